@@ -26,8 +26,8 @@ CONF = {
     "C11": dict(universes=["c11", "c11b", "core", "c16", "c09t"], probes=False, extra=False),
     "C12": dict(universes=["core", "c12x", "c10", "c11", "c12y"], probes=True, extra=True),
     "C16": dict(universes=["core", "c16", "c11"], probes=True, extra=True),
-    "C17": dict(universes=["core", "c18", "c09", "c09b", "c09c", "qv", "c09d"], probes=True, extra=False),
-    "C18": dict(universes=["c18", "core"], probes=True, extra=True),
+    "C17": dict(universes=["core", "c18", "c09", "c09b", "c09c", "qv", "c09d", "c18b"], probes=True, extra=False),
+    "C18": dict(universes=["c18", "core", "c18b"], probes=True, extra=True),
 }
 
 SIZES = {
